@@ -370,7 +370,7 @@ func tableRouting(r *core.Run) {
 	rts := []int{0, 1, 2, 4, 6, 8, 10, 12, 13, 16}
 	lits := []int{0, 1}
 	if r.Thorough() {
-		nfill = len(fillers)
+		nfill = 5
 		rts = []int{0, 1, 2, 3, 4, 5, 6, 7, 8, 9, 10, 11, 12, 13, 14, 15, 16}
 		lits = []int{0, 1, 2, 3}
 	}
@@ -750,17 +750,19 @@ func run(r *core.Run) {
 		r.Extra("D_race_detector_pass", rr)
 	}
 	only := os.Getenv("C09_ONLY")
-	if only == "" || only == "A" {
-		tableRouting(r)
+	// the schedule exploration first: it is the part only a model checker can do; the routing table is the largest
+	// part and comes last, so a soft deadline (reported as exhaustive=false) cuts there and nowhere else
+	if only == "" || only == "C" {
+		schedules(r)
 	}
 	if only == "" || only == "B" {
 		histories(r)
 	}
-	if only == "" || only == "C" {
-		schedules(r)
-	}
 	if only == "" || only == "D" {
 		freeRunning(r)
+	}
+	if only == "" || only == "A" {
+		tableRouting(r)
 	}
 }
 
